@@ -465,7 +465,13 @@ def gc4(F, R):
     R.floor("GC4", "persistence := Stored writes in put()", len(stores), 1, body.where())
     # after put(v, d) the vertex holds an unread datum, whatever it held before: some Stored write happens on every
     # returning path, under no condition
-    if stores and not any(e.uncond and not extra_guards(e.facts, lambda f: False, e.body) for e in stores):
+    def only_when_not_stored_yet(e):
+        """the write is skipped only where the vertex is Stored already"""
+        x = e.x
+        ok = lambda f: f[0] in ("in", "notin") and is_pers_discr_of(f[1], x) and \
+            ((f[0] == "notin" and f[2] == frozenset(["Stored"])) or (f[0] == "in" and f[2] == frozenset(["Empty", "Taken"])))
+        return not extra_guards(e.facts, ok, e.body) and any(ok(f) for f in e.facts) and pers_fact_is_prestate(("in", ("discr", x), frozenset()), body, stores)
+    if stores and not any((e.uncond and not extra_guards(e.facts, lambda f: False, e.body)) or only_when_not_stored_yet(e) for e in stores):
         e = stores[0]
         R.bad("GC4", "GC4/Sodg::put/stored-write-conditional", e.where(),
               "put() marks the vertex as holding an unread datum only on some paths: a datum stored again (after it was read) is "
